@@ -66,6 +66,7 @@ func (r *EntityLocal) GetOrAddFeature(featureType model.FeatureTypeType, role mo
 	if f := r.FeatureOfTypeAndRole(featureType, role); f != nil {
 		return f
 	}
+	verifYield("GetOrAddFeature.miss")
 
 	r.mux.Lock()
 	defer r.mux.Unlock()
@@ -137,6 +138,7 @@ func (r *EntityLocal) AddUseCaseSupport(
 	if err != nil {
 		data = &model.NodeManagementUseCaseDataType{}
 	}
+	verifYield("UseCase.copied")
 
 	address := model.FeatureAddressType{
 		Device: r.address.Device,
@@ -177,6 +179,7 @@ func (r *EntityLocal) SetUseCaseAvailability(
 	if err != nil {
 		return
 	}
+	verifYield("UseCase.copied")
 
 	address := model.FeatureAddressType{
 		Device: r.address.Device,
@@ -199,6 +202,7 @@ func (r *EntityLocal) RemoveUseCaseSupport(
 	if err != nil {
 		return
 	}
+	verifYield("UseCase.copied")
 
 	address := model.FeatureAddressType{
 		Device: r.address.Device,
@@ -218,6 +222,7 @@ func (r *EntityLocal) RemoveAllUseCaseSupports() {
 	if err != nil {
 		return
 	}
+	verifYield("UseCase.copied")
 
 	address := model.FeatureAddressType{
 		Device: r.address.Device,
